@@ -11,7 +11,7 @@
    F-sat class) and "no claim makes another user's rightful claim fail"; both are covered by the correspondence only.
    Statements only. *)
 From MD.Model Require Import Base Ownable Epoch PoolMath Types PoolManager FarmManager Chain.
-From MD.Proofs Require Import WeightProofs FarmProofs RewardProofs FarmCustody FarmCustodyChain.
+From MD.Proofs Require Import WeightProofs FarmProofs RewardProofs FarmCustody FarmCustodyChain BankProofs TxFarm.
 
 (* over ALL histories (any users, any interleaving, rejected operations, injected faults): the recorded payouts of
    every farm of every reachable world stay within what the farm was funded with; together with C05 (the farm manager's
@@ -53,7 +53,23 @@ Theorem C06_no_epoch_paid_twice : forall w sender funds until s' msgs,
     lc_get (fm_last_claimed s') sender = Some u.
 Proof. exact claim_moves_cursor. Qed.
 
+(* THE WHOLE TRANSACTION, every bank balance: the Rewards query on the state before a Claim transaction gives exactly what
+   that transaction moves from the farm manager to the claimant; no other balance changes *)
+Theorem C06_claim_transaction_pays_exactly_what_rewards_quotes : forall w sender until funds w',
+  addr_valid w sender = true -> NoDup (map f_id (fm_farms (w_fm w))) ->
+  run_tx w sender FM (WFm (FmClaim until)) funds = Ok w' ->
+  exists total,
+    funds = [] /\ query_rewards w (w_fm w) sender until = aggregate_coins total /\
+    match total with
+    | [] => forall a d, bal (w_bank w') a d = bal (w_bank w) a d
+    | _ => exists agg, query_rewards w (w_fm w) sender until = Ok agg /\
+             forall a d, bal (w_bank w') a d = bal (w_bank w) a d
+                           - ind (String.eqb a FM) (camt agg d) + ind (String.eqb a sender) (camt agg d)
+    end.
+Proof. exact claim_tx_balances. Qed.
+
 Print Assumptions C06_every_reward_within_budget_and_after_cursor.
 Print Assumptions C06_claimed_amount_bounded.
 Print Assumptions C06_no_epoch_paid_twice.
 Print Assumptions C06_payouts_never_exceed_funding_in_any_reachable_world.
+Print Assumptions C06_claim_transaction_pays_exactly_what_rewards_quotes.
